@@ -114,7 +114,7 @@ class Species :
     @chstt.setter
     def chstt(self, chstt):
         if isdict(chstt) :
-            self._chstt = chstt
+            self._chstt = dict(chstt)
         elif isnumber(chstt) :
             self._chstt = bool(chstt)
         else :
